@@ -18,7 +18,7 @@ m = dict(
         add_only=True,
     ),
     engines=[dict(name='vcheck', path='vcheck.py', serves_properties=sorted(p for p in PROPS if p in set(os.path.basename(f)[:-3] for f in subprocess.run(['git', '-C', V, 'ls-files', 'props.d'], stdout=subprocess.PIPE, text=True).stdout.split())),
-                  kind_free_text='runtime monitoring driver: builds the current /repo tree under ASan+UBSan / TSan, runs seeded workload harnesses (harness/*.cpp) in parallel processes, attributes sanitizer aborts to the generated case, applies reference-model / offline oracles, matches violations against known_findings.json, writes evidence and replay files')],
+                  kind_free_text='runtime monitoring driver: builds the current /repo tree under ASan+UBSan / TSan (and uninstrumented for valgrind memcheck), runs seeded workload harnesses (harness/*.cpp) in parallel processes, attributes sanitizer aborts to the generated case, applies reference-model / offline oracles, matches violations against known_findings.json, writes evidence and replay files')],
     checks=[],
     notes='All checks: `python3 vcheck.py <ID>`; VERIF_SEED / VERIF_TIER honoured; exit 2 = inconclusive (infrastructure, watchdog, monitors observed too little). See DESIGN.md.',
     not_applicable=[],
